@@ -203,7 +203,9 @@ func (r *Runner) RandomContent(n int) (submitted int) {
 			}
 			var cand []Utxo
 			for _, u := range sp {
-				if !used[u.Key()] && u.Denom >= 2 {
+				// outputs of denomination <= MaxTrimDenomination are left to be trimmed: spending one in exactly the block that
+				// trims it triggers known finding C06 spend-at-trim-depth, which would mask the rest of the run
+				if !used[u.Key()] && u.Denom > types.MaxTrimDenomination {
 					cand = append(cand, u)
 				}
 			}
@@ -220,7 +222,7 @@ func (r *Runner) RandomContent(n int) (submitted int) {
 				if string(k2.Addr.Bytes()) != string(k.Addr.Bytes()) {
 					sp2, _ := e.Spendable(k2)
 					for _, u2 := range sp2 {
-						if !used[u2.Key()] && u2.Denom >= 2 {
+						if !used[u2.Key()] && u2.Denom > types.MaxTrimDenomination {
 							used[u2.Key()] = true
 							ins = append(ins, wallet.In{Out: types.OutPoint{TxHash: u2.TxHash, Index: u2.Index}, Key: k2})
 							total.Add(total, types.Denominations[u2.Denom])
@@ -759,4 +761,86 @@ func (r *Runner) etxEvent(ev map[string]interface{}, zb *types.WorkObject) {
 	ev["etx_queue"] = queue
 	ev["etx_queue_ok"] = queueOK
 	ev["etx_altered"] = altered
+}
+
+// TrimSpend tries to realise the TLC lead MCZoneChain_leadF7: a small, unlocked output is created in block H and
+// spent in exactly the block (H + depth) whose execution also trims the outputs created at H.
+func (r *Runner) TrimSpend(depth uint64) (bool, error) {
+	e := r.E
+	var src Utxo
+	var owner wallet.Key
+	found := false
+	for _, k := range e.Qi {
+		sp, _ := e.Spendable(k)
+		for _, u := range sp {
+			if u.Denom >= 6 {
+				src, owner, found = u, k, true
+				break
+			}
+		}
+		if found {
+			break
+		}
+	}
+	if !found {
+		if r.Verbose2 {
+			fmt.Println("trimspend: no source output")
+		}
+		return false, nil
+	}
+	var dst wallet.Key
+	for _, k := range e.Qi {
+		if string(k.Addr.Bytes()) != string(owner.Addr.Bytes()) {
+			dst = k
+			break
+		}
+	}
+	tx1, err := wallet.QiTx(e.Signer, e.ChainID, []wallet.In{{Out: types.OutPoint{TxHash: src.TxHash, Index: src.Index}, Key: owner}},
+		[]types.TxOut{{Denomination: 3, Address: dst.Addr.Bytes()}}, nil, nil)
+	if err != nil {
+		return false, err
+	}
+	if err := e.AddTx(tx1); err != nil {
+		if r.Verbose2 {
+			fmt.Println("trimspend: tx1 rejected:", err)
+		}
+		return false, nil
+	}
+	head, err := r.MineOn(r.head(), -1)
+	if err != nil {
+		return false, err
+	}
+	created := e.Height()
+	if rawdb.GetUTXO(e.Net.DBs[mininet.Zone], tx1.Hash(), 0) == nil {
+		return false, nil // not included
+	}
+	for e.Height() < created+depth-1 {
+		if head, err = r.MineOn(head, -1); err != nil {
+			return false, err
+		}
+	}
+	var third wallet.Key
+	for _, k := range e.Qi {
+		if string(k.Addr.Bytes()) != string(dst.Addr.Bytes()) {
+			third = k
+		}
+	}
+	tx2, err := wallet.QiTx(e.Signer, e.ChainID, []wallet.In{{Out: types.OutPoint{TxHash: tx1.Hash(), Index: 0}, Key: dst}},
+		[]types.TxOut{{Denomination: 2, Address: third.Addr.Bytes()}}, nil, nil)
+	if err != nil {
+		return false, err
+	}
+	if err := e.AddTx(tx2); err != nil {
+		if r.Verbose2 {
+			fmt.Println("trimspend: tx2 rejected:", err)
+		}
+		return false, nil
+	}
+	if _, err = r.MineOn(head, -1); err != nil {
+		return false, err
+	}
+	ev := r.Events[len(r.Events)-1]
+	ev["trimspend"] = true
+	spentNow := rawdb.GetUTXO(e.Net.DBs[mininet.Zone], tx1.Hash(), 0) == nil
+	return spentNow && e.Height() == created+depth, nil
 }
